@@ -116,10 +116,31 @@ Qed.
 End Steps.
 
 (** * the history machine *)
+(** what a step whose Clone / Default fuse fires was given: the value(s) handed in plus the
+    clones / defaults that were made before the panic *)
+Definition fuse_given (h : hstate) (kind k : nat) (o : hop) : list elt :=
+  match kind, o with
+  | 0, HInit _ _ v => repeat v (S k)
+  | 0, HFill v => repeat v (S k)
+  | 0, HClone => firstn k (data (h_td h))
+  | 0, HCloneFrom _ _ d => d ++ firstn k d
+  | 1, HNew _ _ => fresh_seq (h_fresh h) k
+  | _, _ => []
+  end.
+
 Fixpoint supplied (cf : hconf) (h : hstate) (o : hop) : list elt :=
   let t := h_td h in
   match o with
   | HBomb _ o' => supplied cf h o'
+  | HFuse kind k o' =>
+      if negb (cf_track cf) then supplied cf h o'
+      else match fuse_fires cf h kind k o' with
+           | Some _ => fuse_given h kind k o'
+           | None => supplied cf h o'
+           end
+  | HCloneFrom c r d =>
+      if zero_rule_ok c r && match checked_mul c r with Some p => (p =? N.of_nat (length d))%N | None => false end
+      then d ++ d else d
   | HFromVec _ _ d => d
   | HNew c r =>
       if zero_rule_ok c r then
@@ -159,7 +180,7 @@ Theorem hstep_ledger cf : forall o h h' ob,
   Permutation (data (h_td h') ++ ob_dropped ob) (data (h_td h) ++ supplied cf h o) /\ ob_leaked ob = [].
 Proof.
   induction o as [c r d|c r|c r v| |idx s|s|idx s|s|idx steps fin|steps fin|idx steps fin|steps fin
-                  | | | |c r v|v| | |k| |k o IH]; intros h h' ob Hi Hw Hff H; cbn [hstep supplied] in *.
+                  | | | |c r v|v| | |k| |k o IH|kind k o IH|c r d]; intros h h' ob Hi Hw Hff H; cbn [hstep supplied] in *.
   - (* from_vec *)
     destruct (negb (zero_rule_ok c r)); [inversion H; subst; cbn; split; [apply Permutation_refl|reflexivity]|].
     destruct (checked_mul c r); [|inversion H; subst; cbn; split; [apply Permutation_refl|reflexivity]].
@@ -241,6 +262,14 @@ Proof.
     destruct (hstep cf h o) as [[h1 ob1]| |] eqn:E; cbn [bind] in H; try discriminate.
     cbn [fault_free_op] in Hff. destruct (IH h h1 ob1 Hi Hw Hff E) as [Hp Hk].
     destruct (negb (cf_track cf)); inversion H; subst; cbn [ob_dropped ob_leaked]; split; assumption.
+  - (* a Clone / Default fuse is a fault *)
+    discriminate.
+  - (* clone_from: the old cells and the source are dropped, the clones stay *)
+    destruct (zero_rule_ok c r); cbn [negb andb] in *; [|inversion H; subst; cbn; split; [apply Permutation_refl|reflexivity]].
+    destruct (checked_mul c r); [|inversion H; subst; cbn; split; [apply Permutation_refl|reflexivity]].
+    destruct (n =? N.of_nat (length d))%N; inversion H; subst; cbn [h_td data ob_dropped ob_leaked];
+      (split; [|reflexivity]); [|apply Permutation_refl].
+    rewrite !app_assoc. apply Permutation_app_tail. apply Permutation_app_comm.
 Qed.
 
 (** * whole histories *)
